@@ -22,4 +22,24 @@ PROPS = {
             "the model is tied to the Rust by the name/wire streams, not by proof",
         ],
     },
+    "C03": {
+        "modules": ["Resolved.Props.C03"],
+        "streams": [
+            {"name": "wire-decode", "quick": 20000, "thorough": 400000},
+            {"name": "wire-mutations", "quick": 24, "thorough": 400},
+        ],
+        "trivial_tags": [r":bad-op", r"decode:CompletelyBusted", r"decode:HeaderTooShort"],
+        "assumptions": [
+            "native stack consumption per recursion frame is not modelled (depth is bounded by theorem; the thorough tier measures the real decoder on maximal pointer chains)",
+            "octets after the last counted record are ignored (D6)",
+        ],
+    },
+    "C04": {
+        "modules": ["Resolved.Props.C04"],
+        "streams": [
+            {"name": "wire-encode", "quick": 3000, "thorough": 60000, "extra_quick": [16], "extra_thorough": [400]},
+        ],
+        "trivial_tags": [r":bad-op"],
+        "assumptions": ["well-formed message = WfMsg (Spec/Wire.lean); RDATA or section counts >= 65536 make to_octets fail, as the property allows"],
+    },
 }
